@@ -39,6 +39,7 @@ type c06Case struct {
 	Pattern    string    `json:"pattern"`
 	NilHandler bool      `json:"nil_handler,omitempty"` // OnEstablished returns a nil UpdateMessageHandler
 	OCGapNs    int64     `json:"oc_gap_ns,omitempty"`   // time the remote lets pass in OpenConfirm before its first KEEPALIVE (< H)
+	HandlerNs  int64     `json:"handler_ns,omitempty"`  // virtual time every update handler call takes (may exceed H while the remote keeps talking)
 }
 
 func (c c06Case) H() time.Duration {
@@ -57,6 +58,9 @@ func c06Prop(t *testing.T, r *hx.Run, sub string) func(c c06Case) hx.Verdict {
 		p := basePeer(c.Out)
 		p.Hold = c.LocalHold
 		p.Plugin.NilHandler = c.NilHandler
+		if c.HandlerNs > 0 {
+			p.Plugin.SleepNs = map[string]int64{"upd": c.HandlerNs}
+		}
 		var dev *hx.Dev
 		fail := func(key, f string, a ...any) {
 			if dev == nil {
@@ -189,6 +193,7 @@ func c06Prop(t *testing.T, r *hx.Run, sub string) func(c c06Case) hx.Verdict {
 				if H == 0 {
 					horizon = time.Hour + 10*time.Minute
 				}
+				horizon += time.Duration(nUpd+1) * time.Duration(c.HandlerNs) // queued UPDATEs are handled one handler call at a time
 				w.Advance(horizon)
 
 				st := conn.Snapshot()
@@ -282,8 +287,16 @@ func c06Prop(t *testing.T, r *hx.Run, sub string) func(c c06Case) hx.Verdict {
 					fail("expired-early", "H=%v (local %d, remote %d): last message received at %v, Hold Timer Expired sent at %v (%v early)", H, c.LocalHold, c.RemoteHold, last, expiry.at, last+H-expiry.at)
 					return
 				}
-				if expiry.at > last+H+time.Second {
-					fail("expired-late", "H=%v: last message received at %v, Hold Timer Expired only at %v", H, last, expiry.at)
+				// a handler call that is still running when the remote goes silent postpones the
+				// restart of the timer to its return
+				lateFrom := last
+				for _, e := range w.Rec.Events() {
+					if e.K == "upd-" && e.T > lateFrom {
+						lateFrom = e.T
+					}
+				}
+				if expiry.at > lateFrom+H+time.Second {
+					fail("expired-late", "H=%v: last message received at %v (last handler return at %v), Hold Timer Expired only at %v", H, last, lateFrom, expiry.at)
 					return
 				}
 				if !st.LocalClosed || st.CloseAt > expiry.at+time.Second {
@@ -313,6 +326,11 @@ func c06Prop(t *testing.T, r *hx.Run, sub string) func(c c06Case) hx.Verdict {
 				}
 				bound := H/3 + slack
 				prev := time.Duration(-1)
+				if c.HandlerNs > 0 {
+					// the FSM goroutine sends the KEEPALIVEs and is inside the plugin's handler for
+					// HandlerNs at a time: the cadence clause presumes prompt callbacks
+					sent = nil
+				}
 				for _, s := range sent {
 					if s.typ == wire.TypeOpen {
 						continue
@@ -364,6 +382,9 @@ func genC06(rt *rapid.T) c06Case {
 		}
 	}
 	H := c.H()
+	if c.H() > 0 && !c.NilHandler && rapid.IntRange(0, 3).Draw(rt, "slowhandler") == 0 {
+		c.HandlerNs = int64(pick(rt, "handlerns", c.H()/2, c.H()+c.H()/6, 2*c.H()+time.Millisecond))
+	}
 	if H > 0 && rapid.IntRange(0, 2).Draw(rt, "ocgap") == 0 {
 		c.OCGapNs = int64(pick(rt, "ocgapv", H/3-time.Millisecond, H/3+time.Millisecond, H/2, H-time.Second, H-time.Millisecond))
 		if c.OCGapNs < 0 {
